@@ -21,7 +21,7 @@ func init() {
 		Rule: "one evaluation = a fresh server whose Run is started while 1..8 pollers spin on Ready(); the first poller iteration that observes true immediately dials the address and performs a verified bind, and " +
 			"keeps dialing at PRNG-chosen later instants until Stop is called. Addresses cover IPv4, hostname, bracketed and unbracketed IPv6 loopback and the empty-host form. Failing addresses (empty, no port, IP literals of the documentation ranges that are not assigned to the host, " +
 			"bracket errors, invalid IPv4, unresolvable host, a port the harness keeps bound, a port served by another running gldap server, and a TLS configuration without certificates) must make Run return an error while Ready() - polled during the call and for a while after - never reports true. " +
-			"Between Ready and Stop the harness also lets Accept fail temporarily (descriptor shortage), stops another server that shares the mux (and starts a new one on that mux), keeps 300/520/1100 idle connections open and parks silent peers on a TLS listener: a new connection must still be served within 10s afterwards / meanwhile. Runs under GOMAXPROCS 1, 4 and 16. A refused dial after an observed true is a logical fact, not a timing judgement. " +
+			"Between Ready and Stop the harness also lets Accept fail temporarily (descriptor shortage), runs a stopped server again on a port somebody else took meanwhile, stops another server that shares the mux (and starts a new one on that mux), keeps 300/520/1100 idle connections open and parks silent peers on a TLS listener: a new connection must still be served within 10s afterwards / meanwhile. Runs under GOMAXPROCS 1, 4 and 16. A refused dial after an observed true is a logical fact, not a timing judgement. " +
 			"distinct_nontrivial = distinct (address form, #pollers, GOMAXPROCS, whether a poller saw false before true) combinations",
 		Assume: []string{"the address is dialled exactly as it was passed to Run (for the empty-host form, 127.0.0.1)"},
 		Phases: func(tier string, seed int64) []Phase {
@@ -31,7 +31,7 @@ func init() {
 			}
 			return ps
 		},
-		MinObserved: []string{"startups", "dials_after_ready_true", "failing_addresses_checked", "pollers_saw_false_before_true", "served_after_accept_failure_episodes", "served_next_to_silent_tls_peers", "served_while_an_onclose_callback_runs", "served_after_idling_longer_than_the_read_timeout", "served_by_a_second_run_after_a_failed_one", "served_next_to_hundreds_of_idle_connections", "served_after_another_server_on_the_same_mux_was_stopped"},
+		MinObserved: []string{"startups", "dials_after_ready_true", "failing_addresses_checked", "pollers_saw_false_before_true", "served_after_accept_failure_episodes", "served_next_to_silent_tls_peers", "served_while_an_onclose_callback_runs", "served_after_idling_longer_than_the_read_timeout", "served_by_a_second_run_after_a_failed_one", "served_next_to_hundreds_of_idle_connections", "served_after_another_server_on_the_same_mux_was_stopped", "second_runs_of_a_stopped_server_on_a_port_taken_meanwhile"},
 	})
 }
 
@@ -506,6 +506,32 @@ func c17Disturbances(c *Ctx) {
 				again.S.Stop()
 			}
 			blocker.Close()
+		}
+		// one Server value: Run (fine), Stop, somebody else takes the port, Run again (cannot listen, says so): Ready() is
+		// false afterwards - nothing of this server listens anywhere
+		if once, err := startSrv(SrvCfg{}, bindOK); err == nil {
+			addr := once.Addr
+			if err := c17Served(addr, nil, bound); err != nil {
+				c.Inconclusive("run-stop-run, first run: " + err.Error())
+			}
+			once.StopWithin(patience)
+			if taker, err := net.Listen("tcp", addr); err == nil {
+				ret := make(chan error, 1)
+				go func() { ret <- once.S.Run(addr) }()
+				select {
+				case rerr := <-ret:
+					c.Count("second_runs_of_a_stopped_server_on_a_port_taken_meanwhile", 1)
+					if rerr == nil {
+						c.Violate("Run returned nil for an address it cannot listen on", "Run, Stop, the port is taken by another listener, Run again: nil", nil)
+					} else if once.S.Ready() {
+						c.Violate("Ready() was true but a connection attempt failed or was not served", fmt.Sprintf("Run, Stop, the port is taken by another listener, Run again returns %q - and Ready() is true although this server listens nowhere (a connection to %s reaches the other listener)", rerr, addr), map[string]any{"episode": ep})
+					}
+				case <-time.After(bound):
+					c.Violate("Run did not return an error for a port that is already in use", fmt.Sprintf("Run, Stop, the port is taken by another listener, Run again: no return within %s (Ready()=%v)", bound, once.S.Ready()), map[string]any{"episode": ep})
+					once.S.Stop()
+				}
+				taker.Close()
+			}
 		}
 		// a server with a read timeout that sees no connection for longer than that timeout
 		rcfg := SrvCfg{ReadTimeout: 300 * time.Millisecond}
